@@ -139,7 +139,7 @@ var c01ExtKinds = []string{"", "rot", "chain"}
 
 // c01Stages returns the byte strings after each configured extension (model of the stub programs).
 func c01Stages(ext string, in []byte) (names []string, outs [][]byte) {
-	switch ext {
+	switch c01BaseExt(ext) {
 	case "rot":
 		return []string{"rot"}, [][]byte{c01Rot13(in)}
 	case "chain":
@@ -470,6 +470,15 @@ func c01ExtScripts(scratch string) (cleanPfx, smudgePfx string) {
 		tmp := fmt.Sprintf("%s.%d", cleanPfx, os.Getpid())
 		os.WriteFile(tmp, []byte("#!/bin/sh\nprintf 'EXT1'\nexec cat\n"), 0755)
 		os.Rename(tmp, cleanPfx)
+		for name, body := range map[string]string{
+			"c01fail-nowrite": "#!/bin/sh\ncat >/dev/null\nexit 3\n",           // consumes its input, writes nothing, fails
+			"c01fail-partial": "#!/bin/sh\nhead -c 3\ncat >/dev/null\nexit 3\n", // writes the first 3 bytes, consumes the rest, fails
+			"c01fail-early":   "#!/bin/sh\nexit 3\n",                            // fails before reading
+		} {
+			tmp = fmt.Sprintf("%s.%d", filepath.Join(bin, name), os.Getpid())
+			os.WriteFile(tmp, []byte(body), 0755)
+			os.Rename(tmp, filepath.Join(bin, name))
+		}
 		tmp = fmt.Sprintf("%s.%d", smudgePfx, os.Getpid())
 		os.WriteFile(tmp, []byte("#!/bin/sh\nexec tail -c +5\n"), 0755)
 		os.Rename(tmp, smudgePfx)
@@ -477,20 +486,69 @@ func c01ExtScripts(scratch string) (cleanPfx, smudgePfx string) {
 	return
 }
 
-// c01ConfigureExt writes the extension configuration of kind ext into the repository at dir.
-func c01ConfigureExt(dir, ext string, run func(args ...string) error) error {
-	if ext == "" {
+// extension specifications: "", "rot", "chain", or "xf/<pos>/<behaviour>/<phase>": a configuration in which one
+// extension program FAILS (exit 3) in the given phase (clean|smudge): pos only = the single extension rot,
+// last / nonlast = the last / the first program of the two-stage pipeline of that phase (chain rot+pfx; smudge runs
+// the chain in reverse order); behaviour nowrite | partial | early.
+type c01ExtCmd struct {
+	Name          string
+	Clean, Smudge string
+	Prio          int
+}
+
+func c01BaseExt(ext string) string {
+	if strings.HasPrefix(ext, "xf/") {
+		if strings.Split(ext, "/")[1] == "only" {
+			return "rot"
+		}
+		return "chain"
+	}
+	return ext
+}
+
+func c01ExtCommands(ext string) []c01ExtCmd {
+	base := c01BaseExt(ext)
+	if base == "" {
 		return nil
 	}
 	rot := "tr a-zA-Z n-za-mN-ZA-M"
-	sets := [][]string{{"lfs.extension.rot.clean", rot}, {"lfs.extension.rot.smudge", rot}, {"lfs.extension.rot.priority", "0"}}
-	if ext == "chain" {
+	cmds := []c01ExtCmd{{"rot", rot, rot, 0}}
+	if base == "chain" {
 		c, s := c01ExtScripts(os.Getenv("VERIF_SCRATCH"))
-		sets = append(sets, []string{"lfs.extension.pfx.clean", c}, []string{"lfs.extension.pfx.smudge", s}, []string{"lfs.extension.pfx.priority", "1"})
+		cmds = append(cmds, c01ExtCmd{"pfx", c, s, 1})
 	}
-	for _, kv := range sets {
-		if err := run("config", kv[0], kv[1]); err != nil {
-			return err
+	if strings.HasPrefix(ext, "xf/") {
+		f := strings.Split(ext, "/")
+		pos, beh, phase := f[1], f[2], f[3]
+		fail := filepath.Join(os.Getenv("VERIF_SCRATCH"), "c01bin", "c01fail-"+beh)
+		// index of the failing program in cmds (clean order: rot, pfx; smudge order: pfx, rot)
+		idx := 0
+		if base == "chain" {
+			last := pos == "last"
+			if phase == "clean" {
+				if last {
+					idx = 1
+				}
+			} else if !last {
+				idx = 1
+			}
+		}
+		if phase == "clean" {
+			cmds[idx].Clean = fail
+		} else {
+			cmds[idx].Smudge = fail
+		}
+	}
+	return cmds
+}
+
+// c01ConfigureExt writes the extension configuration of kind ext into the repository at dir.
+func c01ConfigureExt(dir, ext string, run func(args ...string) error) error {
+	for _, c := range c01ExtCommands(ext) {
+		for _, kv := range [][]string{{"clean", c.Clean}, {"smudge", c.Smudge}, {"priority", fmt.Sprint(c.Prio)}} {
+			if err := run("config", "lfs.extension."+c.Name+"."+kv[0], kv[1]); err != nil {
+				return err
+			}
 		}
 	}
 	return nil
@@ -500,7 +558,7 @@ func c01WorkerRepo(kind string) (*c01WRepo, error) {
 	if r, ok := c01WRepos[kind]; ok {
 		return r, nil
 	}
-	name := kind
+	name := strings.ReplaceAll(kind, "/", "_")
 	if name == "" {
 		name = "plain"
 	}
